@@ -1,6 +1,7 @@
 import Mkdb.Proofs.SessionInv5
 import Mkdb.Proofs.BaseCase1
 import Mkdb.Proofs.Session
+import Mkdb.Proofs.TypedTables6
 /-!
 Session invariant, part 6: **the invariant of a session, and `Session.exec` keeps it.**
 
@@ -10,11 +11,16 @@ Session invariant, part 6: **the invariant of a session, and `Session.exec` keep
   DATABASE` installs a closed one), the selected name - if any - is a database of the session, names are
   distinct.
 * `StmtSide s st`: the side conditions of the statement-level theorems (`StmtNames`, `StmtRoomT`,
-  `StmtLits`), for the selected database under whatever catalog description it has.
+  `StmtLits`), for the selected database under whatever catalog description it has; and, since the
+  session model EVALUATES a SELECT (`Exec.evaluateSelect` on `fetchOfDB` of the selected database),
+  `SelectSide`: for a `.select q` the select list has a shape the parser builds and the FROM clause names
+  user tables (`UserTables q`) - the two hypotheses of `select_on_stored_never_panics` (TypedTables6).
 * `sessAbs_empty`, **`exec_sessAbs`**: every statement, accepted or refused, with or without a selected
   database, keeps the invariant and does not return `Out.panic`; databases other than the selected one
   (for CREATE DATABASE: other than the new one) keep their plain database; `USE` changes no plain
-  database at all (`use_sessAbs`).
+  database at all (`use_sessAbs`).  The SELECT case is no longer trivial: that the evaluation does not
+  panic is `select_sessAbs`, proved from `select_on_stored_never_panics` under `DbInv` of the selected
+  database (this file now imports TypedTables6; TypedTables5 imports SessionInv8 instead of SessionInv10).
 -/
 set_option autoImplicit false
 namespace Mkdb.Session
@@ -108,11 +114,21 @@ structure SessAbs (s : Sess) (w : String → Spec.SDB) : Prop where
 /-- the invariant of a session: it abstracts to some plain databases -/
 def SessInv (s : Sess) : Prop := ∃ w, SessAbs s w
 
+/-- the side condition of a SELECT (none for the other statements): the select list has a shape the
+parser builds - `*` alone, or no leading `*`: the shape hypothesis of `C18_no_panic_partial`, which
+`parsed_select_shape` / `C18_parsed_select_has_the_shape` discharges for every parsed statement - and the
+FROM clause names neither `sys_pages` nor `sys_schema` (`UserTables`) -/
+def SelectSide : Sql.Stmt → Prop
+  | .select q => ((∃ a, q.list = [⟨.star, a⟩]) ∨ Exec.isStar q.list = false) ∧ UserTables q
+  | _ => True
+
 /-- the side conditions of the statement-level theorems, for the selected database (none for the
-statements that are not routed to it, and none when no database is selected) -/
+statements that are not routed to it, and none when no database is selected).  CHANGED with the session
+model evaluating SELECT: the fourth conjunct `SelectSide st` (the parser shape and `UserTables q` for a
+`.select q`, `True` for every other statement). -/
 def StmtSide (s : Sess) (st : Sql.Stmt) : Prop :=
   ∀ n db, s.cur = some n → getDB s n = some db → ∀ sdb pt sch tbls, DbInv db sdb pt sch tbls →
-    StmtNames pt tbls st ∧ StmtRoomT db pt sch tbls st ∧ StmtLits st
+    StmtNames pt tbls st ∧ StmtRoomT db pt sch tbls st ∧ StmtLits st ∧ SelectSide st
 
 /-- **The empty session satisfies the invariant.** -/
 theorem sessAbs_empty (w : String → Spec.SDB) : SessAbs {} w where
@@ -188,7 +204,7 @@ theorem onCurrent_sessAbs {s : Sess} {w : String → Spec.SDB} (h : SessAbs s w)
     | some db =>
       simp only
       obtain ⟨pt, sch, tbls, hi, _⟩ := h.dbs (n, db) (getDB_mem hg)
-      obtain ⟨hnames, hroom, hlits⟩ := hside n db hc hg _ pt sch tbls hi
+      obtain ⟨hnames, hroom, hlits, _⟩ := hside n db hc hg _ pt sch tbls hi
       obtain ⟨db', hres, sdb', pt', sch', tbls', hi'⟩ := evalStmt_keeps_inv db [] _ pt sch tbls hi st hnames hroom hlits
       have hframe : ∀ m, some n ≠ some m → setW w n sdb' m = w m := fun m hm =>
         setW_other w sdb' (fun heq => hm (by rw [heq]))
@@ -328,11 +344,61 @@ theorem createDatabase_sessAbs {s : Sess} {w : String → Spec.SDB} (h : SessAbs
   rw [heq, hnone] at hm
   cases hm
 
+/-! ### SELECT -/
+
+/-- what the session's SELECT reads is the `fetchOf` of the TypedTables theorems -/
+theorem fetchOfDB_eq (db : DB) : fetchOfDB db = fetchOf db := rfl
+
+/-- a SELECT changes nothing, whatever it returns -/
+theorem exec_select_fst (s : Sess) (q : Sql.Select) : (exec s (.select q)).1 = s := by
+  simp only [exec]
+  split
+  · rfl
+  · split
+    · rfl
+    · split <;> rfl
+
+/-- the outcome of `exec s (.select q)` with the database `db` selected -/
+theorem exec_select_cur {s : Sess} {n : String} {db : DB} (hc : s.cur = some n) (hg : getDB s n = some db)
+    (q : Sql.Select) :
+    exec s (.select q) = (s, match Exec.evaluateSelect (fetchOf db) q with
+      | .ok _ => Out.ok
+      | .err e => .err (stmtErr (.exec e))
+      | .panic _ => .panic) := by
+  simp only [exec, hc, hg, fetchOfDB_eq]
+  cases Exec.evaluateSelect (fetchOf db) q <;> rfl
+
+/-- **SELECT keeps the session as it is and does not return `Out.panic`**: with no database selected it
+is refused; with a database selected the evaluation runs on a database that satisfies `DbInv`, where a
+SELECT of a parser-produced shape over user tables never panics (`select_on_stored_never_panics`). -/
+theorem select_sessAbs {s : Sess} {w : String → Spec.SDB} (h : SessAbs s w) (q : Sql.Select)
+    (hside : StmtSide s (.select q)) :
+    (exec s (.select q)).1 = s ∧ (exec s (.select q)).2 ≠ .panic := by
+  cases hc : s.cur with
+  | none => simp [exec, hc]
+  | some n =>
+    cases hg : getDB s n with
+    | none =>
+      have := h.cur n hc
+      rw [hg] at this
+      cases this
+    | some db =>
+      obtain ⟨pt, sch, tbls, hi, _⟩ := h.dbs (n, db) (getDB_mem hg)
+      obtain ⟨_, _, _, hq, hn⟩ := hside n db hc hg _ pt sch tbls hi
+      have hnp := (select_on_stored_never_panics hi.abs q hq hn).2.1
+      rw [exec_select_cur hc hg]
+      refine ⟨rfl, ?_⟩
+      cases he : Exec.evaluateSelect (fetchOf db) q with
+      | ok r => simp
+      | err e => simp
+      | panic x => exact absurd he (hnp x)
+
 /-! ### every statement -/
 
 /-- **`Session.exec` keeps the invariant, for every statement kind**, accepted or refused, with or
 without a selected database; it never returns `Out.panic`; and the plain database of every database
-other than the selected one is the same afterwards. -/
+other than the selected one is the same afterwards.  (The SELECT case now rests on `select_sessAbs`: the
+evaluation of the query on the selected database does not panic.) -/
 theorem exec_sessAbs {s : Sess} {w : String → Spec.SDB} (h : SessAbs s w) (st : Sql.Stmt) (hside : StmtSide s st) :
     ∃ w', SessAbs (exec s st).1 w' ∧ (exec s st).2 ≠ .panic ∧
       ∀ m, s.cur ≠ some m → (getDB s m).isSome = true → w' m = w m := by
@@ -345,9 +411,8 @@ theorem exec_sessAbs {s : Sess} {w : String → Spec.SDB} (h : SessAbs s w) (st 
     exact ⟨w, h1, h2, fun _ _ _ => rfl⟩
   | showDatabases => exact ⟨w, h, by simp [exec], fun _ _ _ => rfl⟩
   | select q =>
-    refine ⟨w, ?_, ?_, fun _ _ _ => rfl⟩
-    · simp only [exec]; split <;> exact h
-    · simp only [exec]; split <;> simp
+    obtain ⟨h1, h2⟩ := select_sessAbs h q hside
+    exact ⟨w, by rw [h1]; exact h, h2, fun _ _ _ => rfl⟩
   | createTable n c =>
     rw [exec_routed s _ (.inl ⟨n, c, rfl⟩)]
     obtain ⟨w', h1, h2, h3⟩ := onCurrent_sessAbs h _ hside
